@@ -51,8 +51,11 @@ pub fn check_mode(
         return Ok(None);
     }
     let hint: Vec<usize> = vec![0; da.n_funcs() as usize];
+    // "+dwarf": DWARF generation on as well (it implies the code transform and
+    // runs the DWARF emitter before custom sections see the transform)
     let mut cfg = wal::Cfg {
         code_transform: true,
+        dwarf: mode.ends_with("+dwarf"),
         ..wal::Cfg::plain()
     }
     .to_config();
@@ -349,7 +352,7 @@ pub fn check(ctx: &Ctx, input: &Input) -> CaseResult {
     let mut total_pairs = 0;
     let mut interesting = false;
     let mut cov = (0usize, 0usize);
-    for mode in ["plain", "insert", "gc"] {
+    for mode in ["plain", "insert", "gc", "plain+dwarf"] {
         if let Some(r) = check_mode(ctx, &bytes, mode, &edit_bytes, &origin, &mut out)? {
             total_pairs += r.pairs_checked;
             if r.reordered || r.insertions > 0 {
